@@ -142,6 +142,10 @@ class Lexer:
                             self.line,
                             self.column,
                         )
+                elif escape in "\n\r\u2028\u2029" and escape:
+                    # Line continuation: contributes nothing (\r\n is one terminator)
+                    if escape == "\r" and self._current() == "\n":
+                        self._advance()
                 else:
                     # Unknown escape - just use the character
                     result.append(escape)
